@@ -220,6 +220,106 @@ theorem potential_lower_bound_aux {N} (hN : IsSeminormR N) (shape : List Nat) (h
   · refine le_of_eq (congrArg List.sum (List.map_congr_left fun pw _ => ?_))
     simp only [one_mul]
 
+/-! ### weak duality with one dual vector per quadrature point (exact dual of a rule with rational nodes) -/
+
+/-- a rational rule `(w_q, pt_q)_{q<nq}` as the real rule list `costR` expects -/
+noncomputable def ruleR (nq : Nat) (wq : Nat → Rat) (ptq : Nat → List Rat) : List (List ℝ × ℝ) :=
+  (List.range nq).map fun q => ((ptq q).map (fun x => ((x : Rat) : ℝ)), ((wq q : Rat) : ℝ))
+
+theorem pairing_rule_cell (shape : List Nat) (U : Nat → Rat) (nq : Nat) (wq : Nat → Rat) (ptq : Nat → List Rat)
+    (g : Nat → Nat → Nat → Rat) (c : Nat) :
+    sumTo nq (fun q => wq q * sumTo shape.length (fun a => g c q a * faceToCell shape U (ptq q) (decF shape c) a)) =
+      sumTo shape.length (fun a => dualHi nq wq ptq g c a * uHi shape U a (decF shape c) +
+        dualLo nq wq ptq g c a * uLo shape U a (decF shape c)) := by
+  have e1 : ∀ q, q < nq → wq q * sumTo shape.length (fun a => g c q a * faceToCell shape U (ptq q) (decF shape c) a) =
+      sumTo shape.length (fun a => wq q * (g c q a * faceToCell shape U (ptq q) (decF shape c) a)) := by
+    intro q _; rw [sumTo_mul_left]
+  rw [sumTo_congr e1, sumTo_comm]
+  refine sumTo_congr fun a _ => ?_
+  simp only [dualHi, dualLo]
+  rw [← sumTo_mul_right, ← sumTo_mul_right, ← sumTo_add]
+  refine sumTo_congr fun q _ => ?_
+  simp only [faceToCell]; ring
+
+/-- moving the dual field to the faces: face `f` sees `α` of its lower and `β` of its upper cell -/
+theorem pairing_rule_identity (shape : List Nat) (h : List Rat) (U : Nat → Rat) (A B : Nat → Nat → Rat) :
+    sumTo (numCells shape) (fun c => vol h * sumTo shape.length (fun a =>
+        A c a * uHi shape U a (decF shape c) + B c a * uLo shape U a (decF shape c))) =
+      sumTo (numFaces shape) (fun f => vol h *
+        (A (conn shape f).1 (faceAxis shape f) + B (conn shape f).2 (faceAxis shape f)) * U f) := by
+  have e1 : ∀ c, c < numCells shape →
+      vol h * sumTo shape.length (fun a => A c a * uHi shape U a (decF shape c) + B c a * uLo shape U a (decF shape c)) =
+      sumTo shape.length (fun a => vol h * (A c a * uHi shape U a (decF shape c) + B c a * uLo shape U a (decF shape c))) := by
+    intro c _; rw [sumTo_mul_left]
+  rw [sumTo_congr e1, sumTo_comm]
+  unfold numFaces
+  rw [sumTo_offset]
+  refine sumTo_congr fun a ha => ?_
+  have e2 : ∀ c, c < numCells shape →
+      vol h * (A c a * uHi shape U a (decF shape c) + B c a * uLo shape U a (decF shape c)) =
+      vol h * (A c a * uHi shape U a (decF shape c)) + vol h * (B c a * uLo shape U a (decF shape c)) := by
+    intro c _; ring
+  rw [sumTo_congr e2, sumTo_add, sumTo_mul_left, sumTo_mul_left,
+    sum_coef_uHi shape U (fun c => A c a) a ha, sum_coef_uLo shape U (fun c => B c a) a ha,
+    ← sumTo_mul_left, ← sumTo_mul_left, ← sumTo_add]
+  refine sumTo_congr fun k hk => ?_
+  rw [(face_block shape a k ha hk).1]; ring
+
+theorem cellVecR_cast (shape : List Nat) (U : Nat → Rat) (pt : List Rat) (idx : List Nat) (a : Nat) :
+    cellVecR shape U (pt.map fun x => ((x : Rat) : ℝ)) idx a = ((faceToCell shape U pt idx a : Rat) : ℝ) := by
+  have : (pt.map fun x => ((x : Rat) : ℝ)).getD a 0 = ((pt.getD a 0 : Rat) : ℝ) := by
+    simp only [List.getD_eq_getElem?_getD, List.getElem?_map]
+    cases pt[a]? <;> simp
+  simp only [cellVecR, faceToCell, this]; push_cast; ring
+
+/-- **weak duality, one dual vector per quadrature point**: for a rule with rational nodes and non-negative weights, a potential
+`p` and dual vectors `g c q` in the polar of the norm, coupled on every face through the RT0 interpolation weights
+(`vol·(α_lo + β_hi) = −area·Δp`), bound the cost of every mass-conserving flux from below by `Σ_c p_c·vol·f_c`. -/
+theorem potential_lower_bound_rule_aux {N} (hN : IsSeminormR N) (shape : List Nat) (h : List Rat) (hv : 0 ≤ vol h)
+    (nq : Nat) (wq : Nat → Rat) (ptq : Nat → List Rat) (hw : ∀ q, q < nq → 0 ≤ wq q)
+    (f U p : Nat → Rat) (g : Nat → Nat → Nat → Rat) (hF : Feasible shape h f U)
+    (hc : ∀ k, k < numFaces shape → vol h *
+        (dualHi nq wq ptq g (conn shape k).1 (faceAxis shape k) + dualLo nq wq ptq g (conn shape k).2 (faceAxis shape k)) =
+        -(area h (faceAxis shape k) * (p (conn shape k).2 - p (conn shape k).1)))
+    (hg : ∀ c, c < numCells shape → ∀ q, q < nq → ∀ v : ℕ → ℝ,
+        ((List.range shape.length).map fun a => ((g c q a : Rat) : ℝ) * v a).sum ≤ N v) :
+    ((sumTo (numCells shape) (fun c => p c * (vol h * f c)) : Rat) : ℝ) ≤ costR N shape h (ruleR nq wq ptq) 1 U := by
+  have hvR : (0 : ℝ) ≤ (vol h : ℝ) := by exact_mod_cast hv
+  -- exact part in ℚ
+  have idq : sumTo (numCells shape) (fun c => p c * (vol h * f c)) =
+      sumTo (numCells shape) (fun c => vol h * sumTo nq (fun q => wq q *
+        sumTo shape.length (fun a => g c q a * faceToCell shape U (ptq q) (decF shape c) a))) := by
+    have e : ∀ c, c < numCells shape → p c * (vol h * f c) = p c * divApply shape h U c := fun c hc' => by rw [hF c hc']
+    rw [sumTo_congr e, div_adjoint_aux]
+    have e2 : ∀ c, c < numCells shape →
+        vol h * sumTo nq (fun q => wq q * sumTo shape.length (fun a => g c q a * faceToCell shape U (ptq q) (decF shape c) a)) =
+        vol h * sumTo shape.length (fun a => dualHi nq wq ptq g c a * uHi shape U a (decF shape c) +
+          dualLo nq wq ptq g c a * uLo shape U a (decF shape c)) := by
+      intro c _; rw [pairing_rule_cell]
+    rw [sumTo_congr e2, pairing_rule_identity, ← sumTo_neg]
+    refine sumTo_congr fun k hk => ?_
+    rw [hc k hk]; ring
+  rw [idq, cast_sumTo]
+  unfold costR
+  refine List.sum_le_sum fun c hcm => ?_
+  have hc' : c < numCells shape := List.mem_range.1 hcm
+  push_cast
+  refine mul_le_mul_of_nonneg_left ?_ hvR
+  rw [cast_sumTo]
+  simp only [ruleR, List.map_map]
+  refine List.sum_le_sum fun q hqm => ?_
+  have hq : q < nq := List.mem_range.1 hqm
+  simp only [Function.comp]
+  push_cast
+  have hwR : (0 : ℝ) ≤ ((wq q : Rat) : ℝ) := by exact_mod_cast hw q hq
+  refine mul_le_mul_of_nonneg_left ?_ hwR
+  rw [cast_sumTo]
+  have s1 := hg c hc' q hq (fun a => cellVecR shape U ((ptq q).map fun x => ((x : Rat) : ℝ)) (decF shape c) a)
+  refine le_trans (le_of_eq ?_) (le_trans s1 (le_of_eq ?_))
+  · refine congrArg List.sum (List.map_congr_left fun a _ => ?_)
+    rw [cellVecR_cast]; push_cast; ring
+  · congr 1; funext a; ring
+
 /-- a constant cell weight `k` scales the cost by `|k|` -/
 theorem costR_weight {N} (hN : IsSeminormR N) (shape : List Nat) (h : List Rat) (t : List (List ℝ × ℝ)) (k : ℝ)
     (U : Nat → Rat) : costR N shape h t k U = |k| * costR N shape h t 1 U := by
